@@ -3,10 +3,13 @@ package main
 import (
 	"bufio"
 	"bytes"
+	"context"
 	"errors"
 	"fmt"
 	"io"
 	"math/rand"
+	"os"
+	"syscall"
 
 	gots "github.com/Comcast/gots/v2"
 	"github.com/Comcast/gots/v2/packet"
@@ -22,14 +25,31 @@ var errR = errors.New("reader failed (harness sentinel)")
 
 // recWriter records (a copy of) every packet it is given; the failAt-th call fails.
 type recWriter struct {
-	calls  [][]byte
-	failAt int
-	closed bool
+	calls    [][]byte
+	failAt   int
+	closed   bool
+	failWith error // what the failing call returns (errW when nil)
+}
+
+// c18WFails: error values a failing packet writer may return (a writer may fail with io.EOF too: that is the
+// writer's failure, not an end of the input); disjoint from the reader's values so that the result names its origin
+var c18WFails = map[string]error{"sentinel": errW, "eof": io.EOF, "epipe": syscall.EPIPE, "enospc": syscall.ENOSPC,
+	"closed": os.ErrClosed, "permission": os.ErrPermission}
+var c18WFailKinds = []string{"sentinel", "eof", "epipe", "enospc", "closed", "permission"}
+
+func c18WFail(kind string) error {
+	if v, ok := c18WFails[kind]; ok {
+		return v
+	}
+	return errW
 }
 
 func (w *recWriter) WritePacket(p *packet.Packet) (int, error) {
 	w.calls = append(w.calls, append([]byte(nil), p[:]...))
 	if w.failAt != 0 && len(w.calls) == w.failAt {
+		if w.failWith != nil {
+			return 0, w.failWith
+		}
 		return 0, errW
 	}
 	return packet.PacketSize, nil
@@ -44,6 +64,22 @@ type scriptReader struct {
 	}
 	i         int
 	zeroReads bool
+	failWith  error // what a "fail" step returns (errR when nil)
+}
+
+// c18Fails: error values a failing reader may return as "its own error": the harness sentinel and the values
+// readers of the standard library fail with (a truncated gzip stream or cut-off body fails with
+// io.ErrUnexpectedEOF, which is not an end of stream).
+var c18Fails = map[string]error{"sentinel": errR, "unexpectedeof": io.ErrUnexpectedEOF, "closedpipe": io.ErrClosedPipe,
+	"noprogress": io.ErrNoProgress, "shortbuffer": io.ErrShortBuffer, "shortwrite": io.ErrShortWrite,
+	"deadline": os.ErrDeadlineExceeded, "invalid": os.ErrInvalid, "canceled": context.Canceled, "econnreset": syscall.ECONNRESET}
+var c18FailKinds = []string{"sentinel", "unexpectedeof", "closedpipe", "noprogress", "shortbuffer", "shortwrite", "deadline", "invalid", "canceled", "econnreset"}
+
+func c18Fail(kind string) error {
+	if v, ok := c18Fails[kind]; ok {
+		return v
+	}
+	return errR
 }
 
 func (s *scriptReader) Read(p []byte) (int, error) {
@@ -64,6 +100,9 @@ func (s *scriptReader) Read(p []byte) (int, error) {
 			return n, io.EOF
 		case "fail":
 			s.i = len(s.steps)
+			if s.failWith != nil {
+				return n, s.failWith
+			}
 			return n, errR
 		}
 		if n > 0 || s.zeroReads {
@@ -121,7 +160,7 @@ func (c18) Gen(tier string, seed int64, emit func([]Ev)) {
 		}
 		data := c18Stream(r, npk*188+extra)
 		if i%2 == 0 {
-			emit([]Ev{{"op": "write", "adapter": ad, "data": B(data), "fail_at": failAt}})
+			emit([]Ev{{"op": "write", "adapter": ad, "data": B(data), "fail_at": failAt, "wfail_kind": c18WFailKinds[r.Intn(2)*r.Intn(len(c18WFailKinds))]}})
 			continue
 		}
 		// a fragmentation of data into reader results
@@ -198,11 +237,21 @@ func (c18) Gen(tier string, seed int64, emit func([]Ev)) {
 			}
 			script = sc
 		}
-		emit([]Ev{{"op": "readfrom", "adapter": ad, "script": script, "fail_at": failAt, "via": via, "zero_reads": zero}})
+		kind := "sentinel"
+		if r.Intn(2) == 0 {
+			kind = c18FailKinds[r.Intn(len(c18FailKinds))]
+		}
+		emit([]Ev{{"op": "readfrom", "adapter": ad, "script": script, "fail_at": failAt, "via": via, "zero_reads": zero, "fail_kind": kind, "wfail_kind": c18WFailKinds[r.Intn(2)*r.Intn(len(c18WFailKinds))]}})
 	}
 }
 
-func c18Err(err error) string {
+func c18Err(err error, fail ...error) string {
+	if len(fail) > 0 && err != nil && err == fail[0] {
+		return "reader"
+	}
+	if len(fail) > 1 && err != nil && err == fail[1] {
+		return "writer"
+	}
 	switch err {
 	case nil:
 		return "nil"
@@ -218,7 +267,7 @@ func c18Err(err error) string {
 
 func (c18) Exec(h []Ev) []Ev {
 	for _, e := range h {
-		w := &recWriter{failAt: GI(e["fail_at"])}
+		w := &recWriter{failAt: GI(e["fail_at"]), failWith: c18WFail(GS(e["wfail_kind"]))}
 		wr, rf := c18Adapter(GS(e["adapter"]), w)
 		e["panic"] = guard(func() {
 			switch GS(e["op"]) {
@@ -226,7 +275,7 @@ func (c18) Exec(h []Ev) []Ev {
 				data := GB(e["data"])
 				keep := append([]byte(nil), data...)
 				n, err := wr.Write(data)
-				e["n"], e["err"] = n, c18Err(err)
+				e["n"], e["err"] = n, c18Err(err, nil, w.failWith)
 				e["data_same"] = bytes.Equal(data, keep)
 			case "readfrom":
 				sr := &scriptReader{}
@@ -247,12 +296,13 @@ func (c18) Exec(h []Ev) []Ev {
 					}{GB(m["data"]), GS(m["err"])})
 				}
 				sr.zeroReads, _ = e["zero_reads"].(bool)
+				sr.failWith = c18Fail(GS(e["fail_kind"]))
 				var rd io.Reader = sr
 				if GS(e["via"]) == "bufio" {
 					rd = bufio.NewReaderSize(sr, 64)
 				}
 				n, err := rf.ReadFrom(rd)
-				e["n"], e["err"] = int(n), c18Err(err)
+				e["n"], e["err"] = int(n), c18Err(err, sr.failWith, w.failWith)
 			}
 			calls := make([][]int, 0, len(w.calls))
 			for _, c := range w.calls {
@@ -297,7 +347,7 @@ func (c18) Table(rows []Ev, tier string, seed int64, rep *TableReport) {
 	}
 	for ri, row := range rows {
 		tick([]Ev{row})
-		sr := &scriptReader{}
+		sr := &scriptReader{failWith: c18Fail(c18FailKinds[(ri/4)%len(c18FailKinds)])}
 		for _, x := range toList(row["script"]) {
 			m := asMap(x)
 			sr.steps = append(sr.steps, struct {
@@ -305,7 +355,7 @@ func (c18) Table(rows []Ev, tier string, seed int64, rep *TableReport) {
 				err  string
 			}{expand(m["data"]), GS(m["err"])})
 		}
-		w := &recWriter{failAt: GI(row["fail_at"])}
+		w := &recWriter{failAt: GI(row["fail_at"]), failWith: c18WFail(c18WFailKinds[(ri/40)%len(c18WFailKinds)])}
 		_, rf := c18Adapter(c18Adapters[ri%4], w)
 		var n int64
 		var err error
@@ -320,8 +370,8 @@ func (c18) Table(rows []Ev, tier string, seed int64, rep *TableReport) {
 			reason = "replay-" + pan
 		case len(w.calls) != len(want):
 			reason = "replay-delivery-count"
-		case c18Err(err) != GS(row["err"]):
-			reason = fmt.Sprintf("replay-result-%s-expected-got-%s", GS(row["err"]), c18Err(err))
+		case c18Err(err, sr.failWith, w.failWith) != GS(row["err"]):
+			reason = fmt.Sprintf("replay-result-%s-expected-got-%s", GS(row["err"]), c18Err(err, sr.failWith, w.failWith))
 		case int(n) != GI(row["n"])*scale:
 			reason = "replay-byte-count"
 		}
@@ -336,7 +386,7 @@ func (c18) Table(rows []Ev, tier string, seed int64, rep *TableReport) {
 		rep.Classes[fmt.Sprintf("replay/%s/results%d", GS(row["err"]), minInt(len(toList(row["script"])), 4))]++
 		if reason != "" && len(rep.Mismatches) < 50 {
 			rep.Mismatches = append(rep.Mismatches, Ev{"op": "script", "reason": reason, "script": row["script"], "fail_at": row["fail_at"],
-				"want_err": row["err"], "got_err": c18Err(err), "got_n": int(n), "got_calls": len(w.calls)})
+				"want_err": row["err"], "got_err": c18Err(err, sr.failWith, w.failWith), "got_n": int(n), "got_calls": len(w.calls)})
 		}
 	}
 	rep.Exhaustive = true
